@@ -3,7 +3,7 @@
 # generate COUNT histories per seed, run them on the implementation (harness) and on the extracted
 # model (ocaml/driver), compare the observation lines textually.
 # Prints per seed: cases, mismatches, lines with a `false` flag, lines with an error.
-ROOT=/root/scratch/agG
+ROOT=/verif
 H=$ROOT/harness/target/release/verif-harness
 D=$ROOT/ocaml/driver
 COUNT=${1:-1500}; [ $# -gt 0 ] && shift
